@@ -369,6 +369,27 @@ func init() {
 		pub := c.pub(mulG(d))
 		c.call(true, func() []interface{} { return []interface{}{s.Verify(h, pub)} })
 	})
+	add("bec.Signature.Verify", func(c *memCtx) {
+		// u1 = 0, u2 = 1: hash = 0 and r = s = x(Q) mod N is a valid signature for any key — the sum u1*G + u2*Q is
+		// then Q's own coordinates or a copy of them; with an ordinary key and with a key whose X is in [N, P)
+		var q pt
+		if c.spare%2 == 0 {
+			q = somePoint(c.r)
+		} else {
+			for t := int64(1 + c.r.intn(40)); ; t++ {
+				k, err := bec.ParsePubKey(append([]byte{2}, pad32(new(big.Int).Add(curveN, big.NewInt(t)).Bytes())...), S())
+				if err == nil {
+					q = pt{k.X, k.Y}
+					break
+				}
+			}
+		}
+		rr := modN(q.x)
+		s := c.sig(rr, rr)
+		h := c.bytes("hash", make([]byte, 32))
+		pub := c.pub(q)
+		c.call(true, func() []interface{} { return []interface{}{s.Verify(h, pub)} })
+	})
 	add("bec.Signature.IsEqual", func(c *memCtx) {
 		s, t := c.sig(someScalar(c.r), someScalar(c.r)), c.sig(someScalar(c.r), someScalar(c.r))
 		c.call(true, func() []interface{} { return []interface{}{s.IsEqual(t), s.IsEqual(s)} })
